@@ -388,8 +388,13 @@ fn convert_stops(grad: SvgNode) -> Vec<Stop> {
 
             // Next offset must be smaller then previous.
             if offset1 > offset2 || offset1.approx_eq_ulps(&offset2, 4) {
-                // Make previous offset a bit smaller.
-                let new_offset = offset1 - f32::EPSILON;
+                // Make previous offset a bit smaller, but not smaller than the one before it.
+                let min_offset = if i >= 2 {
+                    stops[i - 2].offset.get()
+                } else {
+                    0.0
+                };
+                let new_offset = (offset1 - f32::EPSILON).max(min_offset);
                 stops[i - 1].offset = StopOffset::new_clamped(new_offset);
                 stops[i - 0].offset = StopOffset::new_clamped(offset1);
             }
